@@ -59,7 +59,13 @@ func genC12(r *hx.Rand, length int) *hx.Case {
 	var curOps, curSrs []uint64
 	pl := uint64(0)
 	var todo []op12 // acks still owed for the pending checkpoint
+	if r.Chance(1, 3) {
+		ops = append(ops, op12{K: "lr", B: true}) // this process will die before its cleanup reaches the storage
+	}
 	for len(ops) < length {
+		if r.Chance(1, 40) {
+			ops = append(ops, op12{K: "lr", B: r.Bool()})
+		}
 		x := r.Intn(100)
 		switch {
 		case len(todo) == 0 && x < 55, x < 4:
@@ -91,6 +97,9 @@ func genC12(r *hx.Rand, length int) *hx.Case {
 		case x < 13:
 			ops = append(ops, op12{K: "rs"})
 			todo = nil
+			if r.Chance(1, 3) {
+				ops = append(ops, op12{K: "lr", B: true})
+			}
 		case x < 22: // duplicate of an ack already sent (or of any node), same id
 			if r.Bool() {
 				ops = append(ops, op12{K: "as", Op: uint64(r.Range(1, 3)), St: randStates(r)})
@@ -124,6 +133,64 @@ func genC12(r *hx.Rand, length int) *hx.Case {
 		}
 	}
 	return mkCase("c12", "history", ops)
+}
+
+// genGenerations: several store generations, each publishing a few checkpoints while its Remove calls are (mostly)
+// lost, so that every restart finds obsolete snapshot files next to the newest one; after each restart a new
+// checkpoint is created (its id must exceed everything ever published).
+func genGenerations(r *hx.Rand) *hx.Case {
+	var ops []any
+	pl := uint64(0)
+	gens := r.Range(1, 3)
+	for g := 0; g < gens; g++ {
+		if r.Chance(5, 6) {
+			ops = append(ops, op12{K: "lr", B: true})
+		}
+		for k := r.Range(1, 4); k > 0; k-- {
+			nops, nsrs := r.Range(1, 2), r.Range(1, 2)
+			var os, ss []uint64
+			for i := 1; i <= nops; i++ {
+				os = append(os, uint64(i))
+			}
+			for i := 1; i <= nsrs; i++ {
+				ss = append(ss, uint64(i))
+			}
+			kind := "ck"
+			if r.Chance(1, 8) {
+				kind = "sp"
+			}
+			ops = append(ops, op12{K: kind, Ops: os, Srs: ss})
+			var acks []op12
+			for _, o := range os {
+				pl++
+				acks = append(acks, op12{K: "ao", Op: o, Pl: pl})
+			}
+			for _, s := range ss {
+				acks = append(acks, op12{K: "as", Op: s, St: randStates(r)})
+			}
+			hx.Shuffle(r, acks)
+			if r.Chance(1, 4) {
+				acks = append([]op12{{K: "as", D: -1, Op: 1, St: randStates(r)}}, acks...)
+			}
+			if k == 1 && r.Chance(1, 4) {
+				acks = acks[:len(acks)-1] // the generation dies with a checkpoint in progress
+			}
+			for _, a := range acks {
+				ops = append(ops, a)
+			}
+			if r.Chance(1, 10) {
+				ops = append(ops, op12{K: "lr", B: r.Bool()})
+			}
+		}
+		ops = append(ops, op12{K: "rs"})
+	}
+	ops = append(ops, op12{K: "ck", Ops: []uint64{1}, Srs: []uint64{1}})
+	pl++
+	ops = append(ops, op12{K: "ao", Op: 1, Pl: pl}, op12{K: "as", Op: 1, St: randStates(r)})
+	if r.Bool() {
+		ops = append(ops, op12{K: "rs"}, op12{K: "ck", Ops: []uint64{1}, Srs: []uint64{1}})
+	}
+	return mkCase("c12", "generations", ops)
 }
 
 // ---------- c13 ----------
@@ -227,6 +294,13 @@ func (eng) Generate(mode, tier string, r *hx.Rand) []*hx.Case {
 				l = r.Range(30, 80)
 			}
 			cs = append(cs, genC12(r, l))
+		}
+		ng := 200
+		if thorough {
+			ng = 1500
+		}
+		for i := 0; i < ng; i++ {
+			cs = append(cs, genGenerations(r))
 		}
 	case "c13":
 		for _, id := range interestingIDs(r) {
